@@ -70,12 +70,15 @@ def run(ctx):
             m = np.array([[ctx.rng.randint(0, 1) for _ in range(Ns)] for _ in range(R)])
         obsF = ctx.rng.choice([None, None, Fr(1, 2), pairs_oracle(m.tolist()), Fr(0), Fr(1)])
         obs = None if obsF is None else float(obsF)     # the double image of the exact reference value
+        if obsF is not None and obsF.denominator == 1 and ctx.rng.random() < 0.6:
+            # a whole-number reference (0 = no agreement, 1 = perfect agreement) given as another numeric type
+            obs = ctx.rng.choice([int(obsF), np.int64(int(obsF)), np.float32(int(obsF)), bool(int(obsF))]); ctx.count("obs_ts-given-as-" + type(obs).__name__)
         plus1 = ctx.rng.random() < 0.5; keep = ctx.rng.random() < 0.5
         g = RecSHA256(ctx.rng.randint(0, 10**9))
         snap = m.copy()
         r = guarded(irr.simulate_ts_dist, m, obs, reps, keep, g, plus1)
-        det = {"call": "simulate_ts_dist", "ratings": m.tolist(), "obs_ts": obs, "num_perm": reps, "keep_dist": keep, "plus1": plus1}
-        ctx.case(("tsdist", tuple(map(tuple, m.tolist())), obs, reps, plus1, keep), True, det); ctx.count("simulate_ts_dist")
+        det = {"call": "simulate_ts_dist", "ratings": m.tolist(), "obs_ts": None if obs is None else float(obs), "obs_ts_type": type(obs).__name__, "num_perm": reps, "keep_dist": keep, "plus1": plus1}
+        ctx.case(("tsdist", tuple(map(tuple, m.tolist())), None if obs is None else float(obs), type(obs).__name__, reps, plus1, keep), True, det); ctx.count("simulate_ts_dist")
         if r[0] != "ok" or not np.array_equal(m, snap):
             det.update({"issue": "call failed or ratings modified", "returned": r[1:]}); ctx.violation("oracle", det, site="simulate_ts_dist"); continue
         res = r[1]
